@@ -4,15 +4,16 @@
 # /repo's working tree and reverted right after (git checkout of the touched files).
 cd /verif
 fail=0
+[ -z "$(git -C /repo status --porcelain)" ] || { echo "/repo has uncommitted changes; commit or stash them first"; exit 2; }
 run() { kind=$1; f=$2; prop=$(basename $f | cut -d- -f1)
   files=$(grep '^+++ b/' $f | sed 's#+++ b/##')
   git -C /repo apply /verif/$f || { echo "APPLY-FAILED $f"; fail=1; return; }
   out=$(bin/check $prop 2>&1); rc=$?
-  (cd /repo && git checkout -- $files)
+  git -C /repo apply -R /verif/$f || { echo "REVERT-FAILED $f"; exit 2; }
   if [ $kind = must-fail ] && [ $rc -eq 0 ]; then echo "MISSED   $f"; fail=1
   elif [ $kind = must-pass ] && [ $rc -ne 0 ]; then echo "FALSE-ALARM $f: $(echo "$out" | grep 'failed obligation' | head -2 | cut -c1-140)"; fail=1
   else echo "ok       $kind $(basename $f) $(echo "$out" | grep -c 'failed obligation')"; fi
 }
-for f in selftest/must-fail/${1:-}*.diff; do run must-fail $f; done
-for f in selftest/must-pass/${1:-}*.diff; do run must-pass $f; done
+for f in selftest/must-fail/${1:-}*.diff; do [ -e "$f" ] && run must-fail $f; done
+for f in selftest/must-pass/${1:-}*.diff; do [ -e "$f" ] && run must-pass $f; done
 exit $fail
